@@ -354,7 +354,7 @@ func (w *world) reference(tmp string) error {
 		if err != nil {
 			return fmt.Errorf("reference: block %x: %w", id[28:], err)
 		}
-		f := &bfact{id: id, parent: sum.Header.ParentID(), num: sum.Header.Number(), ts: sum.Header.Timestamp(), txIDs: sum.Txs}
+		f := &bfact{id: id, parent: sum.Header.ParentID(), num: sum.Header.Number(), ts: sum.Header.Timestamp(), txIDs: sum.Txs, stateRoot: sum.Header.StateRoot()}
 		if f.num == 0 {
 			f.parent = id
 			f.anc = []thor.Bytes32{id}
